@@ -139,10 +139,19 @@ func c09World(t *testing.T, r *simcore.Run) any {
 		}
 	}
 	withExt := 0 // bit 0: hop-by-hop, bit 1: end-to-end extension header on the next request
+	udpLenZero := false
 	// wrap puts an NTP payload on the wire towards the listeners
 	wrap := func(payload []byte, srcIP string, srcPort uint16, note string) *simnet.Datagram {
 		if overSCION {
 			raw := buildSCION(scCliIA, scSrvIA, srcIP, scSrvIP, srcPort, scSvcPort, segs, 0, payload)
+			if withExt == 0 && udpLenZero {
+				// UDP length 0 ("the rest of the packet", as the decoder reads it): same payload,
+				// same verdict
+				if off := int(raw[5]) * 4; off+6 <= len(raw) {
+					raw[off+4], raw[off+5] = 0, 0
+					r.Probe("udp-length-field-zero")
+				}
+			}
 			if withExt != 0 {
 				// extension headers the listener has no use for change nothing: same replies, and
 				// replies that are plain SCION/UDP again
@@ -308,6 +317,7 @@ func c09World(t *testing.T, r *simcore.Run) any {
 			if overSCION && tp.Bool(1, 5, "ext-headers") {
 				withExt = 1 + tp.Intn(3, "which-ext")
 			}
+			udpLenZero = overSCION && tp.Bool(1, 6, "udp-length-zero")
 			if viaEndhost {
 				r.Probe("via-endhost-port")
 			}
